@@ -323,6 +323,104 @@ def reserved_name_cases(ctx):
                              "%s: the bare callable gives %r, the contracted one %r" % (label, outs[0], outs[1]))
 
 
+def odd_object_cases(ctx, only=None):
+    """Objects that real programs hand to contracted code and that the library must not poke at: default values whose
+    `==` / `!=` do not give plain bools (numpy arrays, ORM columns), a __new__ that returns an object of ANOTHER class,
+    a property rebuilt by the meta-class that carries an explicit doc. Bare twin vs satisfied contracts."""
+    import icontract
+
+    class Arrayish:
+        """== and != return an object without a truth value (like a numpy array)."""
+
+        def __eq__(self, other):
+            return Arrayish()
+
+        def __ne__(self, other):
+            return Arrayish()
+
+        def __bool__(self):
+            raise ValueError("The truth value of an array is ambiguous")
+
+        __hash__ = object.__hash__
+
+    def run(label, build):
+        outs = []
+        for contracted in (False, True):
+            try:
+                outs.append(("ret", build(contracted)))
+            except BaseException as e:  # noqa
+                outs.append(("exc", type(e).__name__, str(e)[:120]))
+        ctx.case(["odd-object", label], True, sample={"directed": label, "bare": str(outs[0])[:80], "contracted": str(outs[1])[:80]})
+        ctx.count("directed:odd-object-cases")
+        if outs[0] != outs[1]:
+            ctx.fail("odd-object|%s" % label.split(":")[0], {"part": "odd-object", "directed": label},
+                     "%s: the bare twin gives %r, with satisfied contracts %r" % (label, outs[0], outs[1]))
+
+    default = Arrayish()
+
+    def case_default(kind):
+        def build(contracted):
+            def f(x, arr=default):
+                return (x, arr is default)
+
+            async def af(x, arr=default):
+                return (x, arr is default)
+
+            target = af if kind == "async" else f
+            if kind == "method":
+                def target(self, x, arr=default):  # noqa
+                    return (x, arr is default)
+            if contracted:
+                target = icontract.require(lambda x: x > 0)(icontract.ensure(lambda result: result is not None)(target))
+            if kind == "method":
+                K = type("K", (), {"f": target})
+                if contracted:
+                    K = icontract.invariant(lambda self: True)(K)
+                r = K().f(1)
+            else:
+                r = target(1)
+            return RUN.drive(r) if kind == "async" else r
+        return build
+
+    for kind in ("function", "async", "method"):
+        run("default: %s with a default value whose == / != have no truth value" % kind, case_default(kind))
+
+    def case_cond_default(contracted):
+        def f(x):
+            return x
+        if contracted:
+            f = icontract.require(lambda x, arr=default: arr is default and x > 0)(f)
+        return f(1)
+    run("default: condition parameter with such a default", case_cond_default)
+
+    def case_new(contracted):
+        class A:
+            def __new__(cls, x):
+                return 5 if x == 0 else object.__new__(cls)
+
+            def m(self):
+                return 1
+        if contracted:
+            A = icontract.invariant(lambda self: True)(A)
+        return (A(0), type(A(1)).__name__, A(1).m())
+    run("new: __new__ returning an object of another class", case_new)
+
+    def case_doc(contracted):
+        def getter(self):
+            "getter doc"
+            return 2
+
+        if contracted:
+            Base = type(icontract.DBC)("Base", (icontract.DBC,), {
+                "x": property(icontract.require(lambda self: True)(lambda self: 1))})
+            Sub = type(icontract.DBC)("Sub", (Base,), {"x": property(getter, doc="explicit doc")})
+        else:
+            Base = type("Base", (), {"x": property(lambda self: 1)})
+            Sub = type("Sub", (Base,), {"x": property(getter, doc="explicit doc")})
+        return (Sub.x.__doc__, Sub().x)
+    run("doc: explicit doc of a property overriding a contracted one", case_doc)
+
+
 def colour_cases(ctx):
     """Foreign functools.wraps decorators that change the colour of the callable (a sync adapter that runs an `async def`
     to completion, an async adapter around a `def`), with satisfied contracts above and/or below them: the stack with
@@ -602,9 +700,15 @@ def run(ctx, tier, seed, shard, nshards):
         colour_cases(ctx)
         self_name_cases(ctx)
         reserved_name_cases(ctx)
+        odd_object_cases(ctx)
 
 
 def replay(ctx, case):
+    if case.get("part") == "odd-object":
+        before = ctx.evaluations
+        odd_object_cases(ctx)
+        ctx.evaluations = before + 1
+        return
     if case.get("part") == "reserved-name":
         before = ctx.evaluations
         reserved_name_cases(ctx)
